@@ -728,6 +728,12 @@ pub fn effect_exprs(tag: i64) -> Vec<(&'static str, Term)> {
         ("module_eff", app(proj(var(VMOD), "f"), vec![t.clone()])),
         ("module_fail", app(proj(var(VMOD), "g"), vec![t.clone()])),
         ("lambda_eff", app(Term::Lam(vec!["z".into()], b(Term::Eff(b(var("z"))))), vec![t.clone()])),
+        // the host function reached through let-bound aliases of function values
+        ("alias_module_eff", app(var("al"), vec![t.clone()])),
+        ("alias_record_eff", app(var("ar"), vec![t.clone()])),
+        ("alias_of_alias_eff", app(var("al2"), vec![t.clone()])),
+        ("fn_calling_alias", app(var("viaal"), vec![t.clone()])),
+        ("over_applied_fn_returning_alias", app(var("getal"), vec![int(0), t.clone()])),
         ("pure", add(t.clone(), int(1))),
     ]
 }
@@ -788,7 +794,23 @@ pub fn effect_env(body: Term) -> Term {
                     "add_eff",
                     &["a", "c"],
                     Term::Eff(b(add(var("a"), var("c")))),
-                    let_("pe", app(var("add_eff"), vec![int(0)]), body),
+                    let_(
+                        "pe",
+                        app(var("add_eff"), vec![int(0)]),
+                        let_(
+                            "al",
+                            proj(var(VMOD), "f"),
+                            let_(
+                                "ar",
+                                proj(var("r"), "f"),
+                                let_(
+                                    "al2",
+                                    var("al"),
+                                    letfun("viaal", &["x"], app(var("al"), vec![var("x")]), letfun("getal", &["x"], var("ar"), body)),
+                                ),
+                            ),
+                        ),
+                    ),
                 ),
             ),
         ),
